@@ -156,7 +156,8 @@ class C07(object):
                 # what the label buffer holds on entry: -1 everywhere, or zeros as several callers in the repository start
                 # (with labels numbered from 0 every peak then carries grain 0's label without being indexed by it)
                 "init_label": rnd.choice([-1, -1, 0]), "fight_tol_at_construction": rnd.random() < 0.4,
-                "via_saveindexing": rnd.random() < 0.3}
+                "via_saveindexing": rnd.choice([0, 0, 0, 0, 1, 1, 2]),
+                "strided_drlv2": rnd.random() < 0.15}
         if route == "assign":
             # peaks on the detector; each grain gets a translation; UBIs are rebuilt from three of its own g-vectors
             desc["sc"] = g.uniform(0, 2048, n).tolist()
@@ -307,6 +308,26 @@ class C07(object):
             drl, lab = arr["drlv2"].copy(), arr["labels"].copy()
             rets.append(ret)
         E = np.array([errs(u, gv) for u in ubis]) if ubis else np.zeros((0, n))
+        if viol is None and desc.get("strided_drlv2") and n and ubis:
+            # the same competition through the f2py wrapper with the error array given as every second element of a longer
+            # buffer: the wrapper declares it in/out, so it must refuse it or keep it in step with the labels
+            from ImageD11 import cImageD11 as cmod
+            enginea.apply_cfg(sim, cfg, strict=0, track_conflicts=0, pct_est=100, step_cap=2000000000)
+            sim.begin_run()
+            bufd = np.full(2 * n, init)
+            dview = bufd[::2]
+            lab2 = np.full(n, desc.get("init_label", -1), np.int32)
+            accepted = True
+            try:
+                with contextlib.redirect_stdout(io.StringIO()):
+                    for gi in desc["order"]:
+                        cmod.score_and_assign(ubis[gi], gv, tol, dview, lab2, base + gi)
+            except Exception:
+                accepted = False
+            if accepted and (not np.array_equal(lab2, lab) or not np.array_equal(dview, drl)):
+                viol = {"class": "wrong-error", "key": desc["entry"] + ":strided-errors",
+                        "detail": "score_and_assign accepted a strided error array but labels / stored errors differ from the call with a "
+                                  "contiguous one (%d labels, %d errors differ)" % (int((lab2 != lab).sum()), int((dview != drl).sum()))}
         presented = (lab >= base) & (lab < base + len(ubis))
         lab_idx = np.where(presented, lab - base, -1)
         if viol is None and n and (~presented & (lab != -1) & (lab != desc.get("init_label", -1))).any():
@@ -346,6 +367,13 @@ class C07(object):
                     ix.wavelength = 0.05
                     try:
                         ix.saveindexing(os.path.join(ctx.scratch, "c07_%d.idx" % os.getpid()))
+                        if desc.get("via_saveindexing") == 2:
+                            # the grains are polished in place (what score_and_refine does to its argument) and the
+                            # indexing is saved again: the second competition is for the matrices as they are now
+                            gp = np.random.default_rng(len(gv) + 17)
+                            for u_ in ix.ubis:
+                                u_[:] = u_ @ (np.eye(3) + gp.normal(0, 4e-3, (3, 3)))
+                            ix.saveindexing(os.path.join(ctx.scratch, "c07_%d.idx" % os.getpid()))
                     except Exception:
                         pass    # the printed report (cell parameters, U, B of odd synthetic matrices) is not this property's
                                 # business; the competition it starts with has run
@@ -465,9 +493,33 @@ class C07(object):
                     else:
                         rg.grains[(names[j], "s")] = grain.grain(ubis[gi], translation=trans[gi])
                 rg.assignlabels(quiet=True)
+        refine_layout_fail = None
+        if ngr and n >= 3 and not refine_failed and not desc.get("via_refinepositions"):
+            # refinegrains.refine (the caller of score_and_refine in this module) takes the grain's matrix in whatever memory
+            # layout it has: a Fortran-ordered copy must give what the C-ordered one gives
+            with contextlib.redirect_stdout(io.StringIO()):
+                try:
+                    g0 = rg.grains[(names[0], "s")]
+                    rg.compute_gv(g0)
+                    mC = np.ascontiguousarray(g0.ubi)
+                    try:
+                        rC = np.array(rg.refine(mC))
+                    except Exception:
+                        rC = None
+                    if rC is not None:
+                        try:
+                            rF = np.array(rg.refine(np.asfortranarray(mC)))
+                            if not np.allclose(rF, rC, rtol=1e-9, atol=1e-12, equal_nan=True):
+                                refine_layout_fail = "refine() of a Fortran-ordered matrix differs from refine() of the same matrix in C order"
+                        except Exception as e_:
+                            refine_layout_fail = "refine() raises %s for a Fortran-ordered matrix it refines in C order: %s" % (type(e_).__name__, str(e_)[:80])
+                except Exception:
+                    pass
         st = sim.stats()
         lab = np.asarray(rg.scandata["s"].labels).astype(int)
         drl = np.asarray(rg.scandata["s"].drlv2)
+        tpg = np.asarray(rg.scandata["s"].tth_per_grain, float) if "tth_per_grain" in rg.scandata["s"].titles else None
+        epg = np.asarray(rg.scandata["s"].eta_per_grain, float) if "eta_per_grain" in rg.scandata["s"].titles else None
         byname = {nm: order[j] for j, nm in enumerate(names)}
         lab_idx = np.array([byname.get(l, -2) if l >= 0 else -1 for l in lab], int) if n else np.zeros(0, int)
         E = np.array([errs(ubis[k], gvs[k]) for k in range(ngr)]) if ngr else np.zeros((0, n))
@@ -489,6 +541,26 @@ class C07(object):
             k = int(np.argmax((np.abs(drl - mbest) > 1e-9) & ~amb))
             viol = {"class": "wrong-error", "key": desc["entry"] + ":wrong-error",
                     "detail": "assignlabels: peak %d stores error %.12g, minimum over grains is %.12g" % (k, drl[k], mbest[k])}
+        if viol is None and refine_layout_fail:
+            viol = {"class": "raises", "key": desc["entry"] + ":refine-layout", "detail": refine_layout_fail}
+        if viol is None and tpg is not None and n and ngr:
+            # the per-grain two-theta / eta columns: for a peak assigned to a grain, the angles seen from that grain's position
+            for j_, gi_ in enumerate(order):
+                sel_ = lab == names[j_]
+                if not sel_.any():
+                    continue
+                p_ = dict(pars)
+                p_["t_x"], p_["t_y"], p_["t_z"] = trans[gi_]
+                xyz_ = transform.compute_xyz_lab([sc, fc], **p_)
+                t_, e_ = transform.compute_tth_eta_from_xyz(xyz_, om * p_["omegasign"], **p_)
+                dt_ = np.abs(tpg[sel_] - t_[sel_])
+                de_ = np.abs(((epg[sel_] - e_[sel_]) + 180.0) % 360.0 - 180.0)
+                okc = (np.abs(np.abs(e_[sel_]) - 180) > 0.01) & (t_[sel_] > 0.01)
+                if okc.any() and (dt_[okc].max() > 2e-3 or de_[okc].max() > 2e-2):
+                    viol = {"class": "wrong-error", "key": desc["entry"] + ":per-grain-angles",
+                            "detail": "assignlabels: tth_per_grain / eta_per_grain of the peaks assigned to grain %s differ from the angles "
+                                      "seen from that grain's position by up to %.4f / %.4f degrees" % (names[j_], dt_[okc].max(), de_[okc].max())}
+                    break
         meas = enginea.run_measures(st, cfg)
         meas["route"] = {"assign": 1}
         meas["assignments_after_the_grains_moved"] = 1 if desc.get("assign_history") else 0
